@@ -372,6 +372,11 @@ Theorem int_to_chr_law : forall fmt cw rec wh st z r, st_stack st = VInt z :: r 
 Proof. exact Proofs.BstLaws.int_to_chr_law. Qed.
 Print Assumptions int_to_chr_law.
 
+Theorem int_to_chr_error : forall fmt cw rec wh st z r, st_stack st = VInt z :: r -> (z < 0 \/ 1114111 < z)%Z ->
+  builtin_step fmt cw rec wh B_int_to_chr st = PyErr E_BST (-1).
+Proof. exact Proofs.BstLaws.int_to_chr_error. Qed.
+Print Assumptions int_to_chr_error.
+
 Theorem int_to_str_law : forall fmt cw rec wh st z r, st_stack st = VInt z :: r ->
   builtin_step fmt cw rec wh B_int_to_str st = Ok (set_stack st (VStr (Z_to_str z) :: r)).
 Proof. exact Proofs.BstLaws.int_to_str_law. Qed.
@@ -399,7 +404,7 @@ Print Assumptions warning_law.
 
 (* --- type soundness: a program accepted by the checker of Spec/BstTyping.v (integers, strings / missing
        fields, function literals, quoted variables; all built-ins except call.type$ and stack$; user functions
-       followed; if$ branches must agree, while$ conditions leave one integer, bodies nothing), run from a
+       followed; int.to.chr$ : integer -> string; if$ branches must agree, while$ conditions leave one integer, bodies nothing), run from a
        well-formed state, never raises a foreign Python exception -- whatever the fuel -- and when it ends
        normally the stack has the computed shape and the state is well-formed again.
        Hypothesis on the library function: format_name itself raises no foreign exception. *)
@@ -411,14 +416,6 @@ Theorem welltyped_no_crash : forall fmt cw G ent cf s p s',
   (forall st', exec fmt cw n st p = Ok st' -> state_ok G ent st' /\ sabs (st_stack st') s').
 Proof. exact Proofs.BstTyping.welltyped_no_crash. Qed.
 Print Assumptions welltyped_no_crash.
-
-(* the same statement with int.to.chr$ typed "integer -> string" is refuted by the faithful model: beyond
-   the C int range Python's chr() raises OverflowError, which builtins.py does not turn into a BibTeXError.
-   (The checker therefore accepts int.to.chr$ only on a literal in 0..0x10FFFF.) *)
-Theorem welltyped_no_crash_refuted_int_to_chr : forall fmt cw rec wh st z r, st_stack st = VInt z :: r ->
-  (z < -2147483648 \/ 2147483647 < z)%Z -> builtin_step fmt cw rec wh B_int_to_chr st = Crash.
-Proof. exact Proofs.BstTyping.int_to_chr_overflow. Qed.
-Print Assumptions welltyped_no_crash_refuted_int_to_chr.
 
 Theorem state_ok_start : forall G st, ctx_ok G = true -> st_vars st = G -> st_evars st = [] -> st_buf st = [] ->
   state_ok G false st.
@@ -526,7 +523,7 @@ Example welltyped_example :
   ctx_ok G1 = true /\ check G1 false 40 [] prog1 = Some [] /\
   (* ... and it is not accepted when an operand has the wrong kind *)
   check G1 false 40 [] [IStr (s2l "a"); IInt 1; IId (s2l "+")] = None /\
-  check G1 false 40 [] [IInt 2147483648; IId (s2l "int.to.chr$")] = None /\
+  check G1 false 40 [] [IInt 2147483648; IId (s2l "int.to.chr$")] = Some [AStr] /\
   check G1 false 40 [] [IInt 65; IId (s2l "int.to.chr$")] = Some [AStr].
 Proof. vm_compute. repeat split. Qed.
 Example welltyped_run_example :
